@@ -64,8 +64,20 @@ type checkDef struct {
 var reFunc = regexp.MustCompile(`(?m)^func (VerifH_[A-Za-z0-9_]+)\(\)`)
 var rePkg = regexp.MustCompile(`(?m)^package ([A-Za-z0-9_]+)`)
 
-func loadCheck(id string) (*checkDef, error) {
-	dir := filepath.Join(verifDir, "harness", id)
+// checkGroups lists the harness directories of a check: harness/<ID> and
+// every harness/<ID>.<suffix> (a group is loaded as its own program, so its
+// //verif:replace directives do not touch the other groups).
+func checkGroups(id string) []string {
+	var out []string
+	if fi, err := os.Stat(filepath.Join(verifDir, "harness", id)); err == nil && fi.IsDir() {
+		out = append(out, filepath.Join(verifDir, "harness", id))
+	}
+	more, _ := filepath.Glob(filepath.Join(verifDir, "harness", id+".*"))
+	sort.Strings(more)
+	return append(out, more...)
+}
+
+func loadCheck(id, dir string) (*checkDef, error) {
 	files, _ := filepath.Glob(filepath.Join(dir, "*.go"))
 	if len(files) == 0 {
 		return nil, fmt.Errorf("no harness files in %s", dir)
@@ -349,25 +361,14 @@ func cmdCheck(args []string) int {
 	seed, _ := strconv.Atoi(os.Getenv("VERIF_SEED"))
 	t0 := time.Now()
 
-	cd, err := loadCheck(id)
-	if err != nil {
-		fmt.Println("INCONCLUSIVE:", err)
+	groups := checkGroups(id)
+	if len(groups) == 0 {
+		fmt.Println("INCONCLUSIVE: no harness directory for", id)
 		return 2
 	}
-	P, err := engine.Load(cd.Spec)
-	if err != nil {
-		fmt.Println("INCONCLUSIVE: load:", err)
-		return 2
-	}
-	fmt.Printf("[%s] loaded %d packages from source in %.1fs\n", id, len(P.SourcePkgs), P.LoadSeconds)
 	known, knownWhat := loadKnown(id)
 
-	if *replay != "" {
-		return doReplay(cd, P, *replay)
-	}
-
 	var hes []harnessEvidence
-	var allViol []*engine.Violation
 	var knownViol []*engine.Violation
 	var inconclusive []string
 	funcs := map[string]int{}
@@ -376,72 +377,145 @@ func cmdCheck(args []string) int {
 	var samples []any
 	knownHits := map[string]int{}
 	nativeReplays := 0
-	for _, h := range cd.Harnesses {
-		if *only != "" && !strings.Contains(h.Name, *only) {
-			continue
+	exit := 0
+	var reported []string
+	merged := &checkDef{ID: id}
+	srcPkgs := map[string]bool{}
+	loadSeconds := 0.0
+	for _, gdir := range groups {
+		cd, err := loadCheck(id, gdir)
+		if err != nil {
+			fmt.Println("INCONCLUSIVE:", err)
+			return 2
 		}
-		if h.Tier == "thorough" && *tier != "thorough" {
-			continue
-		}
-		cfg := h.config(*tier, known)
-		cfg.Trace = *trace
-		cfg.Workers = *workers
-		cfg.StopAtFirst = *first
-		res := P.Explore(cfg)
-		fmt.Println("  " + res.Summary())
-		he := harnessEvidence{Name: h.Name, Paths: res.Paths, Completed: res.Completed, Pruned: res.Infeasible,
-			Panicked: res.Panicked, Deadlocked: res.Deadlocked, Decisions: res.Decisions, Asserts: res.Asserts,
-			Steps: res.Steps, MaxPathSteps: res.MaxPathSteps, MaxPathDecs: res.MaxPathDecs, Threads: res.Threads,
-			Covers: res.Covers, Wall: res.Wall, Verdict: "holds within bounds",
-			Budget: map[string]any{"opts": h.Opts}}
-		for _, c := range h.Covers {
-			if res.Covers[c] == 0 {
-				msg := fmt.Sprintf("%s: cover label %q not reached (vacuity)", h.Name, c)
-				inconclusive = append(inconclusive, msg)
-				he.Verdict = "inconclusive"
+		if *only != "" {
+			any := false
+			for _, h := range cd.Harnesses {
+				any = any || strings.Contains(h.Name, *only)
 			}
-		}
-		for _, s := range res.Inconclusive {
-			inconclusive = append(inconclusive, h.Name+": "+s)
-			he.Verdict = "inconclusive"
-		}
-		if h.Opts["expect"] == "violation" {
-			// self-test: the engine must find this counterexample
-			if len(res.Violations) == 0 {
-				inconclusive = append(inconclusive, h.Name+": expected violation was not found")
-				he.Verdict = "inconclusive"
-			} else {
-				he.Verdict = "violation found as expected"
-			}
-			res.Violations = nil
-		}
-		for _, v := range res.Violations {
-			if kid := v.KnownID; kid != "" && known[kid] {
-				knownViol = append(knownViol, v)
+			if !any {
 				continue
 			}
-			allViol = append(allViol, v)
-			he.Verdict = "violated"
 		}
-		for k, n := range res.KnownHits {
-			knownHits[k] += n
-		}
-		for f, n := range res.Funcs {
-			funcs[f] = n
-		}
-		solver.Sat += res.Solver.Sat
-		solver.Unsat += res.Solver.Unsat
-		solver.Unknown += res.Solver.Unknown
-		solver.Seconds += res.Solver.Seconds
-		totalPaths += res.Paths
-		totalDecs += res.Decisions
-		symPaths += res.SymPaths
-		for i, s := range res.Samples {
-			if i < 2 {
-				samples = append(samples, map[string]any{"harness": h.Name, "path": s})
+		if *replay != "" {
+			// the group that defines the replayed harness
+			rb, _ := os.ReadFile(*replay)
+			found := false
+			for _, h := range cd.Harnesses {
+				if strings.Contains(string(rb), h.Pkg+"."+h.Name+"\"") {
+					found = true
+				}
+			}
+			if !found && len(groups) > 1 {
+				continue
 			}
 		}
-		hes = append(hes, he)
+		P, err := engine.Load(cd.Spec)
+		if err != nil {
+			fmt.Println("INCONCLUSIVE: load:", err)
+			return 2
+		}
+		fmt.Printf("[%s] %s: loaded %d packages from source in %.1fs\n", id, filepath.Base(gdir), len(P.SourcePkgs), P.LoadSeconds)
+		if *replay != "" {
+			return doReplay(cd, P, *replay)
+		}
+		merged.Bounds = append(merged.Bounds, cd.Bounds...)
+		merged.Assume = append(merged.Assume, cd.Assume...)
+		merged.Outside = append(merged.Outside, cd.Outside...)
+		for _, sp := range P.SourcePkgs {
+			srcPkgs[sp] = true
+		}
+		loadSeconds += P.LoadSeconds
+		var allViol []*engine.Violation
+		for _, h := range cd.Harnesses {
+			if *only != "" && !strings.Contains(h.Name, *only) {
+				continue
+			}
+			if h.Tier == "thorough" && *tier != "thorough" {
+				continue
+			}
+			cfg := h.config(*tier, known)
+			cfg.Trace = *trace
+			cfg.Workers = *workers
+			cfg.StopAtFirst = *first
+			res := P.Explore(cfg)
+			fmt.Println("  " + res.Summary())
+			he := harnessEvidence{Name: h.Name, Paths: res.Paths, Completed: res.Completed, Pruned: res.Infeasible,
+				Panicked: res.Panicked, Deadlocked: res.Deadlocked, Decisions: res.Decisions, Asserts: res.Asserts,
+				Steps: res.Steps, MaxPathSteps: res.MaxPathSteps, MaxPathDecs: res.MaxPathDecs, Threads: res.Threads,
+				Covers: res.Covers, Wall: res.Wall, Verdict: "holds within bounds",
+				Budget: map[string]any{"opts": h.Opts}}
+			for _, c := range h.Covers {
+				if res.Covers[c] == 0 {
+					msg := fmt.Sprintf("%s: cover label %q not reached (vacuity)", h.Name, c)
+					inconclusive = append(inconclusive, msg)
+					he.Verdict = "inconclusive"
+				}
+			}
+			for _, s := range res.Inconclusive {
+				inconclusive = append(inconclusive, h.Name+": "+s)
+				he.Verdict = "inconclusive"
+			}
+			if h.Opts["expect"] == "violation" {
+				// self-test: the engine must find this counterexample
+				if len(res.Violations) == 0 {
+					inconclusive = append(inconclusive, h.Name+": expected violation was not found")
+					he.Verdict = "inconclusive"
+				} else {
+					he.Verdict = "violation found as expected"
+				}
+				res.Violations = nil
+			}
+			for _, v := range res.Violations {
+				if kid := v.KnownID; kid != "" && known[kid] {
+					knownViol = append(knownViol, v)
+					continue
+				}
+				allViol = append(allViol, v)
+				he.Verdict = "violated"
+			}
+			for k, n := range res.KnownHits {
+				knownHits[k] += n
+			}
+			for f, n := range res.Funcs {
+				funcs[f] = n
+			}
+			solver.Sat += res.Solver.Sat
+			solver.Unsat += res.Solver.Unsat
+			solver.Unknown += res.Solver.Unknown
+			solver.Seconds += res.Solver.Seconds
+			totalPaths += res.Paths
+			totalDecs += res.Decisions
+			symPaths += res.SymPaths
+			for i, s := range res.Samples {
+				if i < 2 {
+					samples = append(samples, map[string]any{"harness": h.Name, "path": s})
+				}
+			}
+			hes = append(hes, he)
+		}
+
+		// confirm violations by replay before reporting
+		for i, v := range allViol {
+			if i >= 5 {
+				break
+			}
+			path := writeReplay(id, v)
+			ok, how := confirm(cd, P, v, path)
+			if ok {
+				nativeReplays++
+				fmt.Printf("VIOLATION property=%s replay=%s\n", id, path)
+				fmt.Printf("  harness=%s kind=%s label=%q %s [%s]\n", v.Harness, v.Kind, v.Label, firstLine(v.Detail), how)
+				reported = append(reported, path)
+				exit = 1
+			} else {
+				inconclusive = append(inconclusive, fmt.Sprintf("counterexample for %s/%s did not reproduce on replay (%s): encoding or stub defect", v.Harness, v.Label, how))
+			}
+		}
+	} // groups
+	if *replay != "" {
+		fmt.Println("INCONCLUSIVE: replay file names no harness of", id)
+		return 2
 	}
 
 	// report known findings that still reproduce
@@ -452,26 +526,6 @@ func cmdCheck(args []string) int {
 			fmt.Printf("KNOWN-FINDING: property=%s %s (%s)\n", id, knownWhat[v.KnownID], v.KnownID)
 		}
 	}
-
-	// confirm violations by replay before reporting
-	exit := 0
-	var reported []string
-	for i, v := range allViol {
-		if i >= 5 {
-			break
-		}
-		path := writeReplay(id, v)
-		ok, how := confirm(cd, P, v, path)
-		if ok {
-			nativeReplays++
-			fmt.Printf("VIOLATION property=%s replay=%s\n", id, path)
-			fmt.Printf("  harness=%s kind=%s label=%q %s [%s]\n", v.Harness, v.Kind, v.Label, firstLine(v.Detail), how)
-			reported = append(reported, path)
-			exit = 1
-		} else {
-			inconclusive = append(inconclusive, fmt.Sprintf("counterexample for %s/%s did not reproduce on replay (%s): encoding or stub defect", v.Harness, v.Label, how))
-		}
-	}
 	if exit == 0 && len(inconclusive) > 0 {
 		for _, s := range inconclusive {
 			fmt.Println("INCONCLUSIVE:", firstLine(s))
@@ -480,7 +534,12 @@ func cmdCheck(args []string) int {
 	}
 
 	if !*noEvidence {
-		writeEvidence(id, *tier, seed, cd, P, hes, funcs, solver, totalPaths, totalDecs, symPaths, samples, len(reported), inconclusive, knownHits, time.Since(t0).Seconds())
+		var spl []string
+		for sp := range srcPkgs {
+			spl = append(spl, sp)
+		}
+		sort.Strings(spl)
+		writeEvidence(id, *tier, seed, merged, spl, loadSeconds, hes, funcs, solver, totalPaths, totalDecs, symPaths, samples, len(reported), inconclusive, knownHits, time.Since(t0).Seconds())
 	}
 	fmt.Printf("[%s] tier=%s exit=%d wall=%.1fs\n", id, *tier, exit, time.Since(t0).Seconds())
 	return exit
@@ -628,7 +687,7 @@ func doReplay(cd *checkDef, P *engine.Program, path string) int {
 	return 0
 }
 
-func writeEvidence(id, tier string, seed int, cd *checkDef, P *engine.Program, hes []harnessEvidence, funcs map[string]int,
+func writeEvidence(id, tier string, seed int, cd *checkDef, sourcePkgs []string, loadSeconds float64, hes []harnessEvidence, funcs map[string]int,
 	solver engine.SolverStats, paths, decs, symPaths int, samples []any, violations int, inconclusive []string, knownHits map[string]int, wall float64) {
 	type fe struct {
 		Func   string `json:"func"`
@@ -663,13 +722,13 @@ func writeEvidence(id, tier string, seed int, cd *checkDef, P *engine.Program, h
 		"functions_encoded":             fl,
 		"repo_functions_encoded":        len(fl),
 		"repo_ssa_instructions_encoded": repoInstr,
-		"source_packages":               P.SourcePkgs,
+		"source_packages":               sourcePkgs,
 		"bounds":                        cd.Bounds,
 		"outside_the_claim":             cd.Outside,
 		"queries":                       map[string]any{"solver": "z3 5.1.0 (z3-new -in, incremental; override with SYMGO_SOLVER); fall-back one-shot z3 4.8.12 then cvc5 1.0 --solve-bv-as-int=sum", "sat": solver.Sat, "unsat": solver.Unsat, "unknown": solver.Unknown, "solver_seconds": solver.Seconds},
 		"inconclusive":                  inconclusive,
 		"known_finding_regions_hit":     knownHits,
-		"load_seconds":                  P.LoadSeconds,
+		"load_seconds":                  loadSeconds,
 	}
 	ev := map[string]any{
 		"property_id": id, "tier": tier, "seed": seed, "level": "model_checking",
